@@ -394,7 +394,8 @@ def main():
                 if n["name"] not in txt2:
                     fail("declaration of %s not found at %s:%s" % (n["name"], f, line))
             dll = re.match(r"\s*DLLEXPORT\b", txt) is not None
-            decls.append({"name": n["name"], "file": os.path.basename(f), "dllexport": dll, "function": k == "FunctionDecl"})
+            decls.append({"name": n["name"], "file": os.path.basename(f), "dllexport": dll, "function": k == "FunctionDecl",
+                          "qualType": n["type"]["qualType"]})
     tp = TypeParser(typedefs)
 
     # which records to emit
@@ -453,6 +454,18 @@ def main():
         if key in seen:
             continue
         seen.add(key); dl.append(d)
+    # prototypes of the exported functions of rebound.h (used to compare named callbacks with the member they are stored in)
+    funtypes = []
+    for d in dl:
+        if d["function"] and d["dllexport"] and d["file"] == "rebound.h":
+            t = tp.parse(d["qualType"])
+            if t[0] != "fun":
+                fail("declaration of %s does not have a function type: %s" % (d["name"], d["qualType"]))
+            funtypes.append((d["name"], t))
+    w("Definition c_fun_types : list (string * ctype) := [")
+    w(";\n".join(" (%s, %s)" % (qs(nm), coq_type(t)) for nm, t in funtypes))
+    w("].")
+    w("")
     w("Definition c_decls : list cdecl := [")
     w(";\n".join(" {| cd_name := %s; cd_header := %s; cd_dllexport := %s; cd_is_function := %s |}" % (
         qs(d["name"]), qs(d["file"]), "true" if d["dllexport"] else "false", "true" if d["function"] else "false") for d in dl))
@@ -465,7 +478,9 @@ def main():
                "structs": [{"name": nm, "union": records[nm]["union"], "in_repo": records[nm]["in_repo"],
                             "header": os.path.basename(records[nm]["file"] or ""), "spelling": records[nm]["spelling"],
                             "members": [mn for mn, _, _ in parsed[nm]],
-                            "kinds": [member_kind(t) for _, t, _ in parsed[nm]]} for nm in order],
+                            "kinds": [member_kind(t) for _, t, _ in parsed[nm]],
+                            "types": [t for _, t, _ in parsed[nm]]} for nm in order],
+               "functions": {nm: t for nm, t in funtypes},
                "enums": [{"name": e["name"], "consts": e["consts"]} for e in enums]},
               open(OUTJ + ".tmp", "w"), indent=0)
     os.replace(OUTJ + ".tmp", OUTJ)
